@@ -909,6 +909,24 @@ func init() {
 			c.Run(kSamReadHdr, samReadCase(samText(s)[:n+n/2], true), true, "read:record/long-line/fault")
 		}
 
+		// exhaustive small scope: every tail over {a TAB LF : i 1 @ A} up to a length after
+		// the first nine fields of an alignment line (the SEQ, QUAL and tag region), and
+		// every short input over {@ a TAB LF CR} from the start of the stream
+		{
+			tailLen := c.Pick(5, 6)
+			allStrings([]byte("a\t\n:i1@A"), tailLen, func(t []byte) {
+				s := append([]byte("q\t0\tr\t1\t2\tc\t=\t3\t4\t"), t...)
+				c.Run(kSamReadHdr, samReadCase(s, false), true, "read:exhaustive-tail")
+			})
+			allStrings([]byte("@a\t\n\r"), 6, func(s []byte) {
+				c.Run(kSamReadHdr, samReadCase(s, false), len(s) >= 2, "read:exhaustive-head")
+				if len(s) <= 4 {
+					c.Run(kSamRead, samReadCase(s, true), len(s) >= 2, "read:exhaustive-head-fault")
+				}
+			})
+			c.Exhaustive(fmt.Sprintf("sam_readhdr: all tails over {a TAB LF : i 1 @ A} of length <= %d after nine fields; all inputs over {@ a TAB LF CR} of length <= 6", tailLen))
+		}
+
 		// very long lines, implementation and oracle only (a reader with a fixed
 		// line-length limit, e.g. a 1 MiB buffer, breaks here)
 		{
